@@ -21,7 +21,8 @@ use crate::world::*;
 
 pub const USERS: [&str; 3] = ["user1", "user2", "user3"];
 pub const DURS: [u64; 4] = [86_400, 86_401, 15_778_463, 31_536_000];
-pub const REWARDS: [&str; 4] = ["uwhale", "uusdc", "rwd", "rwd2"];
+/// reward assets by name; "lp" is the staked LP asset itself used as a reward asset
+pub const REWARDS: [&str; 5] = ["uwhale", "uusdc", "rwd", "rwd2", "lp"];
 
 /// a flow named by its label (args.lbl, when not empty) or by its id
 fn ident(args: &Value) -> FlowIdentifier {
@@ -93,9 +94,10 @@ impl IncRun {
     }
 
     pub fn reward_asset(&self, name: &str) -> A {
-        match name { "rwd" => A::Cw20(self.rwd.clone()), "rwd2" => A::Cw20(self.rwd2.clone()), d => A::Native(d.to_string()) }
+        match name { "rwd" => A::Cw20(self.rwd.clone()), "rwd2" => A::Cw20(self.rwd2.clone()), "lp" => self.lp_asset.clone(), d => A::Native(d.to_string()) }
     }
     fn reward_name(&self, info: &AssetInfo) -> String {
+        if *info == self.lp_asset.info() { return "lp".into(); }
         match info {
             AssetInfo::NativeToken { denom } => denom.clone(),
             AssetInfo::Token { contract_addr } => if *contract_addr == self.rwd.to_string() { "rwd".into() } else if *contract_addr == self.rwd2.to_string() { "rwd2".into() } else if *contract_addr == self.lp.to_string() { "lp".into() } else { contract_addr.clone() },
@@ -177,7 +179,7 @@ impl IncRun {
                 }
                 json!({"res": "ok", "r": Value::Object(m)})
             }
-            Err(_) => json!({"res": "rejected", "r": {"uwhale": "0", "uusdc": "0", "rwd": "0", "rwd2": "0"}}),
+            Err(_) => json!({"res": "rejected", "r": {"uwhale": "0", "uusdc": "0", "rwd": "0", "rwd2": "0", "lp": "0"}}),
         }
     }
 
@@ -285,7 +287,9 @@ impl IncRun {
                 for f in args["funds"].as_array().unwrap() {
                     let d = f["d"].as_str().unwrap();
                     let x: u128 = f["amt"].as_str().unwrap().parse().unwrap();
-                    if d == "rwd" { self.w.set_allowance(&u, &self.rwd.clone(), &inc, x); } else if d == "rwd2" { self.w.set_allowance(&u, &self.rwd2.clone(), &inc, x); } else if x > 0 { funds.push(coin(x, d)); }
+                    if d == "rwd" { self.w.set_allowance(&u, &self.rwd.clone(), &inc, x); } else if d == "rwd2" { self.w.set_allowance(&u, &self.rwd2.clone(), &inc, x); }
+                    else if d == "lp" { match self.lp_asset.clone() { A::Cw20(t) => self.w.set_allowance(&u, &t, &inc, x), A::Native(dn) => if x > 0 { funds.push(coin(x, dn)) } } }
+                    else if x > 0 { funds.push(coin(x, d)); }
                 }
                 funds.sort_by(|a, b| a.denom.cmp(&b.denom));
                 dpre = self.w.digest();
@@ -314,7 +318,8 @@ impl IncRun {
         let mut out = json!({});
         if op == "claim" && rs.is_ok() {
             let pays: Vec<Value> = rs.transfers().iter().map(|(c, to, x)| {
-                let a = if *c == self.rwd.to_string() { "rwd".to_string() } else if *c == self.rwd2.to_string() { "rwd2".to_string() } else { c.clone() };
+                let lp_key = match &self.lp_asset { A::Cw20(t) => t.to_string(), A::Native(d) => d.clone() };
+                let a = if *c == self.rwd.to_string() { "rwd".to_string() } else if *c == self.rwd2.to_string() { "rwd2".to_string() } else if *c == lp_key { "lp".to_string() } else { c.clone() };
                 json!({"a": a, "to": self.w.name_of(to), "x": s(*x)})
             }).collect();
             out = json!({"pays": pays, "flows": self.flows_ledger()});
